@@ -17,7 +17,7 @@ for o_ in CASES:
 OBLIGATIONS = (
     CASES
     + pick("C12", r"misuse\.case(08|09|10|11|12|14|15|16|17|22)$", tiers=("quick", "thorough"))
-    + pick("C02", r"table\.(get\.home0|iter)\.ns5", tiers=("quick", "thorough"))
+    + pick("C02", r"table\.(get\.home0|set\.home0|iter)\.ns5", tiers=("quick", "thorough"))
     + pick("C04", r"array\.(getset|iter)\.n2", tiers=("quick", "thorough"))
     + pick("C03", r"tree\.get\.q[35]$", tiers=("quick", "thorough"))
 )
